@@ -112,6 +112,9 @@ func c17Record(col *collector, c c17Case, origin string, nodes, depth int) {
 	if c.Branch != nil {
 		cl = append(cl, "custom-branch")
 	}
+	if depth >= 30 {
+		cl = append(cl, "depth>=30")
+	}
 	col.eval(nodes >= 3 && depth >= 2 || origin != "well-formed", hash64(string(c.Doc), fmt.Sprint(c.Branch, c.Mode, c.Exts)), cl...)
 	col.sample(func() any {
 		return map[string]any{"doc": truncate(string(c.Doc), 200), "mode": c.Mode, "branch": c.Branch, "exts": c.Exts}
@@ -134,7 +137,15 @@ func TestC17Random(t *testing.T) {
 		if mode == "dryrun" {
 			names = rapid.OneOf(sampled(validElemPool()), sampled(validElemPool()), sampled(poolHostilePathItems()))
 		}
-		f := genForest(forestParams{maxNodes: 16, maxDepth: 8, names: names}).Draw(rt, "forest")
+		var f model.Forest
+		switch rapid.IntRange(0, 19).Draw(rt, "big") {
+		case 0, 1: // deep nesting (up to 90 levels)
+			f = genDeepForest(names, false).Draw(rt, "deepForest")
+		case 2:
+			f = genForest(forestParams{maxNodes: 150, maxDepth: 12, names: names}).Draw(rt, "bigForest")
+		default:
+			f = genForest(forestParams{maxNodes: 16, maxDepth: 8, names: names}).Draw(rt, "forest")
+		}
 		sp := genSpelling(f.HeadingOK()).Draw(rt, "sp")
 		lines := model.SpellLines(f, sp)
 		origin := "well-formed"
